@@ -21,6 +21,11 @@ CHECKS = {
         technique="Hypothesis on format-then-parse of ls dates over the (mtime, now, time zone) plane; generated directories listed end to end through the real client on simnet; oracle = backend truth + precision rule",
         text="Plane: real Server.build_list_mtime -> real Client.parse_ls_date for generated (now, mtime, lag) in 4 process time zones, expected localtime(mtime) to the minute inside the last half year and to the day otherwise (the one-day window at the boundary is excluded, as the property says). End to end: generated directories (names with metacharacters, sizes to 2^40, controlled mtimes via a virtual wall clock injected into server, backend and client) listed with MLSD, LIST, MLST-stat and against a LIST-only server; names as multiset, type, size, MLSx modify in UTC seconds, LIST time per the precision rule.",
         note="Virtual wall clock: module attribute shims (aioftp.server.time, aioftp.pathio.time, aioftp.client.datetime) in the harness, no repository change. Known finding F12 (leading-whitespace names through LIST) is recorded in KNOWN_FINDINGS and its class is suppressed by signature. Mutants caught: half-year test shifted by 5 days, client year inference shifted, MLSx time via localtime, size modulo 2^32."),
+    "C13": dict(
+        category="fault_enumeration", design_ref="3/C13",
+        technique="enumeration of the k-th backend call failing (k = 1..n, pairs in thorough) x script corpus x backend on a simulated network with an instrumented backend, plus Hypothesis-sampled fault sets / exception types / tapes; oracle = 451 + ledger + probe + neighbour differential",
+        text="An instrumented subclass of each shipped backend counts the calls made for the victim session and raises inside the k-th one (under universal_exception, including inside the lister's __anext__). For every script and every k: the faulted command must end with exactly one 451 (after the 150 if a transfer had started), the server must close the data connection and a downloading peer must see EOF, no backend handle may stay open, later commands must be answered, a PWD + upload + download probe must succeed on the same session and a concurrently running neighbour session must produce its solo transcript.",
+        note="Exhaustive relative to the scripts only. Faults are injected at the backend API boundary. The defect this check finds on the original tree (open() failing in stor/retr workers leaks the data connection) is fixed in f23a3f1. Mutants caught: 226 queued before the file context exits; universal_exception letting an exception type through; listing worker not closing its stream."),
     "C14": dict(
         category="fault_enumeration", design_ref="3/C14",
         technique="enumeration of ABOR positions (virtual-time grid over every block of every transfer kind, iteration-indexed sweep of the ABOR arrival, no-transfer case) x data-connection timing x follow-up, plus Hypothesis-sampled times/tapes, on a simulated network; oracle = allowed reply sequences + prefix + follow-up",
